@@ -233,6 +233,11 @@ class DetailedPlacement {
   int siteEnd(int row, int pred) const;
 
   /**
+   * @brief Return true if the row polarity of the cell allows this row
+   */
+  bool isRowCompatible(int c, int row) const;
+
+  /**
    * @brief Return true if it is possible to place the cell here
    */
   bool canPlace(int c, int row, int pred, int x) const;
